@@ -146,21 +146,57 @@ def _r1(ctx):
         pair("LCD cell / LatencyLCD: the same cycle is selected", False, cv.where(), "selection of the longest cycle not found",
              recognised=False)
     # --- summary ports
-    tsum = pm.find("M_t = ArchSemantics.get_throughput_sum(%s)" % cv.params()[1], cv.node)
-    dsum = pm.find_any(["M_t = ArchSemantics.get_throughput_sum(%s) or %s[0].port_pressure" % (fd.params()[1], fd.params()[1]),
-                        "M_t = ArchSemantics.get_throughput_sum(%s)" % fd.params()[1]], fd.node)
+    def summed(fi):
+        """[(call, verdict)] for every get_throughput_sum call: True = the whole kernel is summed, False = another
+        collection (a filtered / sliced kernel, something else), None = not understood."""
+        kern = fi.params()[1]
+        out = []
+        for c in C.calls_to(fi.node, "get_throughput_sum"):
+            a = C.flow_of(fi).subst(c.args[0]) if c.args else None
+            while isinstance(a, ast.Call) and isinstance(a.func, ast.Name) and a.func.id in ("list", "tuple") and len(a.args) == 1:
+                a = a.args[0]
+            v = None
+            if a is None:
+                v = None
+            elif U(a) == kern:
+                v = True
+            elif isinstance(a, (ast.ListComp, ast.GeneratorExp)) and len(a.generators) == 1 and U(a.generators[0].iter) == kern:
+                g = a.generators[0]
+                v = (not g.ifs and U(a.elt) == U(g.target))
+            elif isinstance(a, ast.Subscript) and U(a.value) == kern and isinstance(a.slice, ast.Slice):
+                v = U(a.slice) == ":"
+            elif isinstance(a, ast.Call) and isinstance(a.func, ast.Name) and a.func.id == "filter":
+                v = False
+            out.append((c, v, a))
+        return out
+    tsum = pm.find("M_t = ArchSemantics.get_throughput_sum(M_k)", cv.node)
+    dsum = pm.find_any(["M_t = ArchSemantics.get_throughput_sum(M_k) or %s[0].port_pressure" % fd.params()[1],
+                        "M_t = ArchSemantics.get_throughput_sum(M_k)"], fd.node)
     dv = _dict_value(fd, "Summary", "Kernel")
     dpp = None
     if isinstance(dv, ast.Dict):
         for k, v in zip(dv.keys, dv.values):
             if isinstance(k, ast.Constant) and k.value == "PortPressure":
                 dpp = v
+    t_dom, d_dom = summed(cv), summed(fd)
     d_ok = bool(dsum) and dpp is not None and pm.match(
         "{self._machine_model.get_ports()[M_i]: M_v for M_i, M_v in enumerate(%s)}" % U(dsum[0][1]["M_t"]), dpp) is not None
     t_ok = bool(tsum) and any(U(c.args[0]) == U(tsum[0][1]["M_t"]) for c in C.calls_to(cv.node, "_get_port_pressure"))
-    pair("summary row / Summary.PortPressure", t_ok and d_ok, cv.where(),
-         "both must come from ArchSemantics.get_throughput_sum(kernel) (text ok=%s, dict ok=%s)" % (t_ok, d_ok),
-         recognised=bool(tsum) and dpp is not None)
+    whole_t = bool(t_dom) and all(v is True for _, v, _ in t_dom)
+    whole_d = bool(d_dom) and all(v is True for _, v, _ in d_dom)
+    part = [(fi, c, a) for fi, dom in ((cv, t_dom), (fd, d_dom)) for c, v, a in dom if v is False]
+    if part and len(t_dom) == 1 == len(d_dom) and t_dom[0][2] is not None and d_dom[0][2] is not None and \
+            U(t_dom[0][2]).replace(cv.params()[1], "K") == U(d_dom[0][2]).replace(fd.params()[1], "K"):
+        # both outputs sum the same sub-collection: they agree with each other; whether that is still "the totals" is
+        # not something this rule can tell
+        ctx.unknown("R1", "summary row / Summary.PortPressure", cv.where(t_dom[0][0]),
+                    "text and dict both sum `%s` instead of the whole kernel" % U(t_dom[0][2])[:100])
+        part = []
+    pair("summary row / Summary.PortPressure", t_ok and d_ok and whole_t and whole_d, part[0][0].where(part[0][1]) if part else cv.where(),
+         "both must come from ArchSemantics.get_throughput_sum(<the whole kernel>) (text ok=%s, dict ok=%s)%s" % (
+             t_ok, d_ok, "; %s sums `%s`, not every line of the kernel: the two totals (and the column sums of the "
+             "per-line cells) differ whenever a left-out line has port pressure" % (part[0][0].qname, U(part[0][2])[:120]) if part else ""),
+         recognised=bool(part) or (bool(tsum) and dpp is not None and all(v is True for _, v, _ in t_dom + d_dom)))
     # --- CP total
     fa = ctx.func("Frontend.full_analysis")
     tcp = pm.find("M_s = sum([M_x.latency_cp for M_x in %s])" % cv.params()[2], cv.node)
